@@ -37,7 +37,7 @@ SamplerClause(c, e) ==
     ELSE IF c.static /\ e.scounts[c.smp] > 1 THEN "static-sampler-drew-again"
     ELSE IF ~c.static /\ e.scounts[c.smp] # scount[c.smp] + 1 THEN "sampler-draw-count"
     ELSE "ok"
-Init == /\ tid \in 1..Len(Traces) /\ l = 1 /\ conds = [i \in 1..17 |-> [kind |-> "none"]] /\ lastloss = [i \in 1..17 |-> <<0, 0>>]
+Init == /\ tid \in 1..Len(Traces) /\ l = 1 /\ conds = [i \in 1..20 |-> [kind |-> "none"]] /\ lastloss = [i \in 1..20 |-> <<0, 0>>]
         /\ scount = <<0, 0, 0>>
         /\ verdict = (IF "driver_error" \in DOMAIN Traces[tid] THEN "driver-error" ELSE "ok")
 Step == /\ l <= Len(Ev) /\ l' = l + 1 /\ tid' = tid
